@@ -887,7 +887,8 @@ def _preprocess(ctx):
         x0 = rng.uniform(3.6, 3.9)
         pad = rng.choice([0, 0, 7])
         loglam = np.array([x0 + dx * j for j in range(npix - pad)] + [0.0] * pad)
-        zs = np.array([rng.uniform(0.0, 0.3) for _ in range(nobj)])
+        # redshifts and (stars, nearby galaxies) small blueshifts: 1+z > 0 is all the statement asks
+        zs = np.array([rng.uniform(0.0, 0.3) if rng.random() < 0.7 else rng.uniform(-0.003, 0.0) for _ in range(nobj)])
         centers = [x0 + dx * rng.uniform(0.35, 0.65) * (npix - pad) for _ in range(nobj)]
         width = rng.uniform(2.5, 5.0) * dx
         flux = np.array([10.0 + 30.0 * np.exp(-0.5 * ((loglam - L) / width) ** 2) * (loglam > 0) for L in centers])
@@ -921,6 +922,7 @@ def _preprocess(ctx):
             continue
         ctx.seen(case)
         ctx.count('preprocess:nobj=%d' % nobj)
+        ctx.count('preprocess:blueshifted-objects', int((zs < 0).sum()))
         lines = [{'p': 'C11', 'op': 'shift', 'loglam': _bits(loglam), 'row': _bits(flux[k]), 's': F(np.log10(1.0 + zs)[k])} for k in range(nobj)]
         for k, m in enumerate(core.driver(lines)):
             impl = [_bits(calls[k][0]), _bits(calls[k][1])] if k < len(calls) else None
